@@ -146,6 +146,9 @@ class TypeMap:
                 return self.tup([self.c(a) for a in args])
             if b in ('std::optional', 'optional'):
                 return self.opt(self.c(args[0]))
+            if b in ('std::unique_ptr', 'unique_ptr'):
+                # an owning, never-null pointer is modelled as the owned object itself (assumption: not null)
+                return self.c(args[0])
         if s in ('std::string', 'std::string_view', 'string', 'string_view'):
             return self.vec('char')
         if self.record_resolver:
